@@ -50,7 +50,7 @@ def load_known():
     if os.path.exists(path):
         for line in open(path):
             line = line.strip()
-            if line and not line.startswith("#"):
+            if line.startswith("{"):
                 out.append(json.loads(line))
     return out
 
@@ -206,6 +206,9 @@ def main():
         rec = dict(property=prop, obligation=name, kind=r.get("kind"), note=r.get("note"), solver=r["backend"], verdict=r["verdict"], reason=r.get("reason"), counter_model=(r.get("model") or "")[:4000])
         if match is not None:
             used_b.add(match)
+            for i2, b2 in enumerate(bviol):
+                if (b2["carrier"], b2["clause"]) == (bviol[match]["carrier"], bviol[match]["clause"]):
+                    used_b.add(i2)
             rec["failing_input"] = bviol[match]
             json.dump(rec, open(path, "w"), indent=1, default=str)
             lines.append(f"VIOLATION property={prop} replay={path} obligation={name}")
@@ -219,6 +222,9 @@ def main():
         if ks:
             known_hit.append((ks[0], f"{b['carrier']}/{b['clause']}"))
             continue
+        for i2, b2 in enumerate(bviol):
+            if (b2["carrier"], b2["clause"]) == (b["carrier"], b["clause"]):
+                used_b.add(i2)
         nviol += 1
         path = os.path.join(HERE, "replay", f"{prop}-{nviol}.json")
         json.dump(dict(property=prop, obligation=f"bounded:{b['carrier']}/{b['clause']}", failing_input=b), open(path, "w"), indent=1, default=str)
